@@ -667,6 +667,17 @@ def check_d2(eng, rep, d2_events, report_none=True):
         if not subs:
             continue
         if not adds:
+            inl = _inline_restorer(prog, fi, subs)
+            if inl is not None:
+                ok, why, node = inl
+                if ok:
+                    rep.holds("R4b", "C19.R4b-D2", fq, "scratch-restore:_remaining_lists",
+                              "every decrement is logged and the log is handed to the restoring helper on every path to "
+                              "every exit")
+                else:
+                    rep.violation("R4b", "C19.R4b-D2", fq, "scratch-restore:_remaining_lists", why,
+                                  site=site_of(prog, fi, fi.node), path=[evs[0][0]])
+                continue
             verdict = _split_restore(prog, fi, subs)
             if verdict is not None:
                 okk, why2, node2, fatal = verdict
@@ -705,6 +716,58 @@ def check_d2(eng, rep, d2_events, report_none=True):
 def _calls_named(node, name):
     return [c for c in ast.walk(node) if isinstance(c, ast.Call) and (
         (isinstance(c.func, ast.Attribute) and c.func.attr == name) or (isinstance(c.func, ast.Name) and c.func.id == name))]
+
+
+def _inline_restorer(prog, fi, subs):
+    """Decrements (and their log) stay in `fi`; the restore loop was extracted into a private helper that receives the
+    log: `self._restore(log)` as a top-level statement of `fi`.  The helper's loop is put back in place of the call
+    (its loop variable over the log parameter renamed to the argument) and the ordinary pairing rule decides.
+    None when `fi` has no such call."""
+    import copy
+    if fi.cls is None:
+        return None
+    shape = _shape(subs[0].target)
+    methods = {}
+    for q in fi.cls.mro:
+        c = prog.classes.get(q)
+        if c is not None:
+            for n, m in c.methods.items():
+                methods.setdefault(n, m)
+    for i, st in enumerate(fi.node.body):
+        if not (isinstance(st, ast.Expr) and isinstance(st.value, ast.Call) and isinstance(st.value.func, ast.Attribute)
+                and isinstance(st.value.func.value, ast.Name) and st.value.func.value.id == "self"
+                and st.value.func.attr in methods and st.value.func.attr != fi.name):
+            continue
+        m = methods[st.value.func.attr]
+        params = [a.arg for a in m.node.args.args][1:]
+        loops = [lp for lp in m.node.body if isinstance(lp, ast.For) and any(
+            isinstance(a, ast.AugAssign) and isinstance(a.op, ast.Add) and _shape(a.target) == shape for a in ast.walk(lp))]
+        others = [x for x in m.node.body if x not in loops and not (isinstance(x, ast.Expr) and isinstance(x.value, ast.Constant))]
+        if len(loops) != 1 or others or len(st.value.args) != len(params) or st.value.keywords:
+            continue
+        if not all(isinstance(a, ast.Name) for a in st.value.args):
+            continue
+        ren = {pn: a.id for pn, a in zip(params, st.value.args)}
+        fn2 = copy.deepcopy(fi.node)
+        lp2 = copy.deepcopy(loops[0])
+        for x in ast.walk(lp2.iter):
+            if isinstance(x, ast.Name) and x.id in ren:
+                x.id = ren[x.id]
+        fn2.body[i] = lp2
+
+        class _Shim:
+            pass
+        sh = _Shim()
+        sh.node = fn2
+        ids = {(d.lineno, d.col_offset) for d in subs}
+        subs2 = [d for d in ast.walk(fn2) if isinstance(d, ast.AugAssign) and isinstance(d.op, ast.Sub)
+                 and (d.lineno, d.col_offset) in ids and d not in list(ast.walk(lp2))]
+        adds2 = [a for a in ast.walk(lp2) if isinstance(a, ast.AugAssign) and isinstance(a.op, ast.Add)
+                 and _shape(a.target) == shape]
+        if len(subs2) != len(subs):
+            return None
+        return _restore_pairing(sh, subs2, adds2)
+    return None
 
 
 def _split_restore(prog, fi, subs):
@@ -821,14 +884,24 @@ def _restore_pairing(fi, subs, adds):
                             if isinstance(prev, ast.Assign) and len(prev.targets) == 1 and isinstance(prev.targets[0], ast.Name) \
                                     and prev.targets[0].id in names_:
                                 names_ = (names_ - {prev.targets[0].id}) | {x.id for x in ast.walk(prev.value) if isinstance(x, ast.Name)}
-                    return names_ - {"self"}
+                            elif isinstance(prev, ast.Assign) and len(prev.targets) == 1 and isinstance(prev.targets[0], ast.Tuple) \
+                                    and isinstance(prev.value, ast.Name) and all(isinstance(e_, ast.Name) for e_ in prev.targets[0].elts):
+                                # `head, index = entry`: the parts stand for the entry they were unpacked from
+                                parts = {e_.id for e_ in prev.targets[0].elts}
+                                if parts & names_:
+                                    names_ = (names_ - parts) | {prev.value.id}
+                    # a local that names the counter table itself (`counters = self._remaining_lists`) is not an index
+                    table = {st_.targets[0].id for st_ in ast.walk(fi.node) if isinstance(st_, ast.Assign)
+                             and len(st_.targets) == 1 and isinstance(st_.targets[0], ast.Name)
+                             and isinstance(st_.value, ast.Attribute) and st_.value.attr == "_remaining_lists"}
+                    return names_ - {"self"} - table
                 if sorted(got) == idx_names or _expand(got) == _expand(idx_names):
                     logged = True
         if not logged:
             return False, "decrement is not recorded in the log %s the restore loop iterates" % log, d
     # the restore increments the same access path
-    tgt_sub = _shape(subs[0].target)
-    if not any(_shape(a.target) == tgt_sub for a in adds):
+    tgt_sub = _xshape(fi.node, subs[0].target)
+    if not any(_xshape(fi.node, a.target) == tgt_sub for a in adds):
         return False, "restore increments a different location than the decrement", adds[0]
     return True, "", None
 
@@ -844,6 +917,34 @@ def _log_name(it):
             and len(it.args) == 1:
         return _log_name(it.args[0])
     return None
+
+
+def _xshape(fn, node):
+    """_shape with the base name expanded through locals that are assigned exactly once from a subscript / attribute /
+    name (`row = table[a]; row[b] -= 1` has the shape of `table[a][b] -= 1`)."""
+    import copy
+    stores, defs = {}, {}
+    for x in ast.walk(fn):
+        if isinstance(x, ast.Name) and isinstance(x.ctx, ast.Store):
+            stores[x.id] = stores.get(x.id, 0) + 1
+        if isinstance(x, ast.Assign) and len(x.targets) == 1 and isinstance(x.targets[0], ast.Name):
+            defs[x.targets[0].id] = x.value
+    defs = {k: v for k, v in defs.items() if stores.get(k) == 1}
+    node = copy.deepcopy(node)
+    for _ in range(4):
+        base = node
+        parent = None
+        while isinstance(base, (ast.Subscript, ast.Attribute)):
+            parent, base = base, base.value
+        if isinstance(base, ast.Name) and base.id in defs and isinstance(defs[base.id], (ast.Subscript, ast.Attribute, ast.Name)):
+            repl = copy.deepcopy(defs[base.id])
+            if parent is None:
+                node = repl
+            else:
+                parent.value = repl
+        else:
+            break
+    return _shape(node)
 
 
 def _shape(node):
